@@ -1208,7 +1208,7 @@ class MatrixVectorProduct(VectorExpression):
         matrix: np.ndarray,
         vector: VectorVariable | VectorExpression,
     ) -> None:
-        matrix = np.array(matrix)  # private copy (see LinearCombination)
+        matrix = np.array(matrix, order="C")  # private copy (see LinearCombination); rows contiguous
         matrix.setflags(write=False)
         if matrix.ndim != 2:
             raise WrongDimensionalityError(
